@@ -137,6 +137,15 @@ def cases(rng, tier):
         out.append(("struct 3, `zz.abs(): %s` (no such field) + .." % anyp, program(v3w, "S3 { zz.abs(): %s, .. }" % anyp), False, "unknown"))
         out.append(("nested: Some(S3 { a: %s, b: 2 })" % anyp, program("Some(%s)" % v3w, "Some(S3 { a: %s, b: 2 })" % anyp), False, "omission"))
     out.append(("struct 3, every field `_`", program(v3w, "S3 { a: _, b: _, c: _ }"), True, "control"))
+    # a wildcard struct pattern without `..` wherever a pattern may stand (positional and INDEXED elements, nested): rejected everywhere
+    for desc, val, pat in [("positional tuple element", "(%s, 2)" % v3w, "(_ { a: 1 }, 2)"), ("indexed tuple element", "(%s, 2)" % v3w, "(0: _ { a: 1 }, 1: 2)"),
+                           ("second indexed element", "(2, %s)" % v3w, "(0: 2, 1: _ { a: 1 })"), ("under Some", "Some(%s)" % v3w, "Some(_ { a: 1 })"),
+                           ("indexed variant argument", "Some(%s)" % v3w, "Some(0: _ { a: 1 })"), ("under Some under an indexed element", "(Some(%s), 2)" % v3w, "(0: Some(_ { a: 1 }), 1: 2)"),
+                           ("slice element", "vec![%s]" % v3w, "[_ { a: 1 }]"), ("set element", "vec![%s]" % v3w, "#(_ { a: 1 })"),
+                           ("field of a wildcard struct under an indexed element", "(%s, 2)" % v3w, "(0: _ { a: 1, b: 2, c: 3 }, 1: 2)"),
+                           ("tuple variant, indexed", "E::P2(1, 2)", "E::P2(0: 1, 1: 2)")]:
+        ok = desc == "tuple variant, indexed"
+        out.append(("wildcard struct without `..` as %s" % desc if not ok else "control: %s elements" % desc, program(val, pat), ok, "wildcard" if not ok else "control"))
     # a type or variant that is not the value's
     v3 = value_of("struct", 3)
     full = ["a", "b", "c"]
